@@ -45,5 +45,8 @@ def check(ctx, rep):
     # no state outlives a call: no shared write reachable from the entry points of this property
     from ..rules import eff as _eff
     _eff.eff_1(ctx, rep, only=[('parso/grammar.py', 'Grammar._get_normalizer_issues')], minimum=20)
+    normr.norm_12(ctx, rep)      # None-able indentation attributes (tab configuration)
+    from ..rules import normr as _n11
+    _n11.norm_11(ctx, rep)      # prefix part columns: first-line state does not leak into later lines
     rep.note('Not decided: positions inside the file, non-negative columns, equality of issue lists across fresh / '
              'incremental / cached trees.')
